@@ -738,8 +738,10 @@ func genC19(e *emitter) {
 			}
 			l := cg.str(be.X)
 			switch {
-			case strings.HasSuffix(l, ".Size()"):
-				th["rsaMinBytes"] = v
+			case strings.HasSuffix(l, ".Size()"): // modulus size in bytes: (bits+7)/8 >= v  <=>  bits >= 8v-7
+				th["rsaMinBits"] = 8*v - 7
+			case strings.HasSuffix(l, ".BitLen()"):
+				th["rsaMinBits"] = v
 			case strings.HasSuffix(l, ".E"):
 				th["rsaMinExponent"] = v
 			case strings.HasSuffix(l, ".BitSize"):
@@ -748,7 +750,7 @@ func genC19(e *emitter) {
 			return true
 		})
 	}
-	fmt.Fprintf(&b, "def strengthRsaMinBytes : Nat := %d\ndef strengthRsaMinExponent : Nat := %d\ndef strengthEcMinBits : Nat := %d\n", th["rsaMinBytes"], th["rsaMinExponent"], th["ecMinBits"])
+	fmt.Fprintf(&b, "/-- smallest accepted RSA modulus length in bits (from the `.Size()` or `.BitLen()` comparison) -/\ndef strengthRsaMinBits : Nat := %d\ndef strengthRsaMinExponent : Nat := %d\ndef strengthEcMinBits : Nat := %d\n", th["rsaMinBits"], th["rsaMinExponent"], th["ecMinBits"])
 	rsaBits := int64(0)
 	if ce, ok := cli.consts["rsaKeySize"]; ok {
 		rsaBits, _ = cli.evalInt(ce, 0)
